@@ -1,0 +1,259 @@
+//! Verification hooks for `tablets.rs` (compiled only with `--cfg scylla_verif`).
+//!
+//! Child module of `tablets`: drives the private `TableTablets` / `TabletsInfo` operations with
+//! plain data. Contains no driver logic of its own.
+
+use super::*;
+use crate::cluster::metadata::{PeerEndpoint, Strategy, Table};
+use crate::cluster::node::NodeAddr;
+use std::net::SocketAddr;
+
+fn make_node(host_id: Uuid, dc: Option<String>) -> Arc<Node> {
+    Arc::new(Node::new_disabled(PeerEndpoint {
+        host_id,
+        address: NodeAddr::Translatable(SocketAddr::from(([127, 0, 0, 1], 9042))),
+        datacenter: dc,
+        rack: None,
+    }))
+}
+
+/// `(first, last, replicas)` of a tablet.
+pub type TabletView = (i64, i64, Vec<(Uuid, Shard)>);
+
+/// One table's tablets (`TableTablets`) plus the set of currently known nodes.
+pub struct VerifTablets {
+    table: TableTablets,
+    info: TabletsInfo,
+    nodes: HashMap<Uuid, Arc<Node>>,
+}
+
+impl VerifTablets {
+    pub fn new() -> Self {
+        Self {
+            table: TableTablets::new(TableSpec::owned("ks".into(), "t".into())),
+            info: TabletsInfo::new(),
+            nodes: HashMap::new(),
+        }
+    }
+
+    /// Adds (or replaces with a fresh `Node` object) a known node.
+    pub fn set_node(&mut self, host_id: Uuid, dc: Option<String>) {
+        self.nodes.insert(host_id, make_node(host_id, dc));
+    }
+
+    fn make_tablet(&self, first: i64, last: i64, replicas: &[(Uuid, Shard)]) -> Tablet {
+        let raw = RawTablet {
+            first_token: Token::new(first),
+            last_token: Token::new(last),
+            replicas: RawTabletReplicas {
+                replicas: replicas.to_vec(),
+            },
+        };
+        match Tablet::from_raw_tablet(raw, |id| self.nodes.get(&id).cloned()) {
+            Ok(t) => t,
+            Err((t, _failed)) => t,
+        }
+    }
+
+    /// `TableTablets::add_tablet` with a tablet built by `Tablet::from_raw_tablet`
+    /// (replicas unknown to the node set end up in `failed`).
+    pub fn add(&mut self, first: i64, last: i64, replicas: &[(Uuid, Shard)]) {
+        let tablet = self.make_tablet(first, last, replicas);
+        self.table.add_tablet(tablet);
+    }
+
+    fn view(t: &Tablet) -> TabletView {
+        (
+            t.first_token.value(),
+            t.last_token.value(),
+            t.replicas
+                .all
+                .iter()
+                .map(|(n, s)| (n.host_id, *s))
+                .collect(),
+        )
+    }
+
+    /// `tablet_for_token`.
+    pub fn lookup(&self, token: i64) -> Option<TabletView> {
+        self.table
+            .tablet_for_token(Token::new(token))
+            .map(Self::view)
+    }
+
+    /// `replicas_for_token`.
+    pub fn replicas(&self, token: i64) -> Option<Vec<(Uuid, Shard)>> {
+        self.table
+            .replicas_for_token(Token::new(token))
+            .map(|r| r.iter().map(|(n, s)| (n.host_id, *s)).collect())
+    }
+
+    /// `dc_replicas_for_token`.
+    pub fn dc_replicas(&self, token: i64, dc: &str) -> Option<Vec<(Uuid, Shard)>> {
+        self.table
+            .dc_replicas_for_token(Token::new(token), dc)
+            .map(|r| r.iter().map(|(n, s)| (n.host_id, *s)).collect())
+    }
+
+    /// The whole tablet list, in storage order.
+    pub fn tablets(&self) -> Vec<TabletView> {
+        self.table.tablet_list.iter().map(Self::view).collect()
+    }
+
+    /// Number of tablets whose `failed` field is set.
+    pub fn unresolved(&self) -> usize {
+        self.table
+            .tablet_list
+            .iter()
+            .filter(|t| t.failed.is_some())
+            .count()
+    }
+
+    /// Number of replica entries (in `all` or `per_dc`) that do not point to the `Node`
+    /// object currently registered for their host id.
+    pub fn stale_replicas(&self) -> usize {
+        let mut stale = 0;
+        for t in &self.table.tablet_list {
+            let per_dc = t.replicas.per_dc.values().flat_map(|v| v.iter());
+            for (n, _) in t.replicas.all.iter().chain(per_dc) {
+                match self.nodes.get(&n.host_id) {
+                    Some(cur) if Arc::ptr_eq(cur, n) => {}
+                    _ => stale += 1,
+                }
+            }
+        }
+        stale
+    }
+
+    /// `TableTablets::perform_maintenance`: `removed` nodes leave the node set, `recreated`
+    /// nodes get a fresh `Node` object (optionally in another datacenter).
+    pub fn maintenance(&mut self, removed: &[Uuid], recreated: &[(Uuid, Option<String>)]) {
+        let removed_set: HashSet<Uuid> = removed.iter().copied().collect();
+        for id in removed {
+            self.nodes.remove(id);
+        }
+        let mut recreated_map = HashMap::new();
+        for (id, dc) in recreated {
+            if self.nodes.contains_key(id) {
+                let n = make_node(*id, dc.clone());
+                self.nodes.insert(*id, n.clone());
+                recreated_map.insert(*id, n);
+            }
+        }
+        self.table
+            .perform_maintenance(&removed_set, &self.nodes, &recreated_map);
+    }
+
+    /// `TabletsInfo::add_tablet`.
+    pub fn info_add(
+        &mut self,
+        ks: &str,
+        table: &str,
+        first: i64,
+        last: i64,
+        replicas: &[(Uuid, Shard)],
+    ) {
+        let tablet = self.make_tablet(first, last, replicas);
+        self.info
+            .add_tablet(TableSpec::owned(ks.to_owned(), table.to_owned()), tablet);
+    }
+
+    /// `TabletsInfo::perform_maintenance` with keyspaces given as `(name, tablet_based, tables)`.
+    pub fn info_maintenance(
+        &mut self,
+        keyspaces: &[(String, bool, Vec<String>)],
+        removed: &[Uuid],
+        recreated: &[(Uuid, Option<String>)],
+    ) {
+        let keyspaces: HashMap<String, Keyspace> = keyspaces
+            .iter()
+            .map(|(name, tablet_based, tables)| {
+                (
+                    name.clone(),
+                    Keyspace {
+                        strategy: Strategy::LocalStrategy,
+                        durable_writes: false,
+                        tablet_based: *tablet_based,
+                        tables: tables
+                            .iter()
+                            .map(|t| {
+                                (
+                                    t.clone(),
+                                    Table {
+                                        columns: HashMap::new(),
+                                        partition_key: vec![],
+                                        clustering_key: vec![],
+                                        partitioner: None,
+                                        pk_column_specs: vec![],
+                                    },
+                                )
+                            })
+                            .collect(),
+                        views: HashMap::new(),
+                        user_defined_types: HashMap::new(),
+                    },
+                )
+            })
+            .collect();
+        let removed_set: HashSet<Uuid> = removed.iter().copied().collect();
+        for id in removed {
+            self.nodes.remove(id);
+        }
+        let mut recreated_map = HashMap::new();
+        for (id, dc) in recreated {
+            if self.nodes.contains_key(id) {
+                let n = make_node(*id, dc.clone());
+                self.nodes.insert(*id, n.clone());
+                recreated_map.insert(*id, n);
+            }
+        }
+        self.info
+            .perform_maintenance(&keyspaces, &removed_set, &self.nodes, &recreated_map);
+    }
+
+    /// `(keyspace, table, tablets)` of every table known to the `TabletsInfo`, sorted.
+    pub fn info_tables(&self) -> Vec<(String, String, Vec<TabletView>)> {
+        let mut v: Vec<_> = self
+            .info
+            .tablets
+            .iter()
+            .map(|(spec, tt)| {
+                (
+                    spec.ks_name().to_owned(),
+                    spec.table_name().to_owned(),
+                    tt.tablet_list.iter().map(Self::view).collect::<Vec<_>>(),
+                )
+            })
+            .collect();
+        v.sort();
+        v
+    }
+
+    /// `TabletsInfo::tablets_for_table(..).replicas_for_token(..)`.
+    pub fn info_lookup(&self, ks: &str, table: &str, token: i64) -> Option<Vec<(Uuid, Shard)>> {
+        let spec = TableSpec::borrowed(ks, table);
+        self.info
+            .tablets_for_table(&spec)?
+            .replicas_for_token(Token::new(token))
+            .map(|r| r.iter().map(|(n, s)| (n.host_id, *s)).collect())
+    }
+}
+
+/// `RawTablet::from_custom_payload` on the bytes stored under the tablets payload key.
+/// `None`: key absent; `Err(kind)`: rejected; `Ok((first, last, replicas))`: accepted
+/// (`first` already incremented).
+pub fn raw_tablet_from_payload(
+    payload: &HashMap<String, Bytes>,
+) -> Option<Result<TabletView, &'static str>> {
+    RawTablet::from_custom_payload(payload).map(|r| match r {
+        Ok(raw) => Ok((
+            raw.first_token.value(),
+            raw.last_token.value(),
+            raw.replicas.replicas.clone(),
+        )),
+        Err(TabletParsingError::Deserialization(_)) => Err("deserialization"),
+        Err(TabletParsingError::TypeCheck(_)) => Err("typecheck"),
+        Err(TabletParsingError::ShardNum(_)) => Err("shardnum"),
+        Err(TabletParsingError::WrongTokenRange(_, _)) => Err("wrongrange"),
+    })
+}
